@@ -46,21 +46,22 @@ func responseFromExpr(r *expr.HTTPResponseExpr, bodies map[int][]*openapi.Schema
 		if headers == nil {
 			headers = make(map[string]*HeaderRef)
 		}
-		if len(cookies) == 1 {
-			for _, v := range cookies {
-				headers["Set-Cookie"] = v
-			}
-		} else {
-			// Generic cookies header
-			headers["Set-Cookie"] = &HeaderRef{
-				Value: &Header{
-					Description: "Cookies set by the server",
-					Required:    true,
-					Schema: &openapi.Schema{
-						Type: "string",
-					},
+		// The value of a Set-Cookie header is the cookie name, its value and its
+		// attributes, not a value of the cookie attribute type: it is described
+		// as a string. It is required only if a cookie always gets set.
+		required := false
+		expr.WalkMappedAttr(r.Cookies, func(name, _ string, _ *expr.AttributeExpr) error { // nolint: errcheck
+			required = required || r.Cookies.IsRequiredNoDefault(name)
+			return nil
+		})
+		headers["Set-Cookie"] = &HeaderRef{
+			Value: &Header{
+				Description: "Cookies set by the server",
+				Required:    required,
+				Schema: &openapi.Schema{
+					Type: "string",
 				},
-			}
+			},
 		}
 	}
 
